@@ -61,4 +61,30 @@ def chainWork : List Bytes → Except Btc.Py.PyErr Int
     let ws ← chainWork rest
     pure (w + ws)
 
+inductive PowErr | width | negative | overflow | zero | aboveLimit | work
+  deriving DecidableEq, Repr
+
+def PowErr.name : PowErr → String
+  | .width => "width" | .negative => "negative" | .overflow => "overflow" | .zero => "zero"
+  | .aboveLimit => "above" | .work => "work"
+
+/-- `BlockHeader.assert_valid_pow(pow_limit_bits)` over the translated codec, statement by statement: negative bits,
+    then the target (overflow raised by `target_from_bits`), a zero target, a target above the limit's, the hash above
+    the target.  The two `bytes > bytes` comparisons are between 32-byte big-endian strings, i.e. of the numbers. -/
+def assertValidPow (bits limitBits hash : Bytes) : Except PowErr Unit :=
+  match Gen.Pow.is_negative_bits bits with
+  | .error _ => .error .width
+  | .ok true => .error .negative
+  | .ok false =>
+    match Gen.Pow.target_from_bits bits with
+    | .error _ => .error .overflow
+    | .ok target =>
+      if ofBE target = 0 then .error .zero
+      else match Gen.Pow.target_from_bits limitBits with
+        | .error _ => .error .overflow
+        | .ok limit =>
+          if ofBE target > ofBE limit then .error .aboveLimit
+          else if ofBE hash > ofBE target then .error .work
+          else .ok ()
+
 end Btc.Block
